@@ -332,7 +332,7 @@ def run_derived(spec, res):
                 if not xml_ok(t):
                     continue
                 want = checker(t, version)
-                doc = f'<e>{esc(t)}</e>'
+                doc = f'<e xmlns:p="urn:p">{esc(t)}</e>'
                 res.evaluations += 1
                 res.nontrivial.add(env.h8((xsd, t)))
                 try:
@@ -461,16 +461,29 @@ def build_derived(kind, f1, f2, rng):
     base = {'int': 'xs:int', 'decimal': 'xs:decimal', 'string': 'xs:string', 'token': 'xs:token', 'date': 'xs:date',
             'hex': 'xs:hexBinary'}.get(kind)
     if kind == 'list':
-        xsd = (f'<xs:schema xmlns:xs="{XS}"><xs:simpleType name="L"><xs:list itemType="xs:int"/></xs:simpleType>'
+        # item types: the length family counts list items whatever the item type is (for atomic QName / NOTATION the
+        # facets are vacuous, for a list of QNames they are not)
+        item = rng.choice(('int', 'int', 'QName', 'NMTOKEN', 'boolean'))
+        xsd = (f'<xs:schema xmlns:xs="{XS}"><xs:simpleType name="L"><xs:list itemType="xs:{item}"/></xs:simpleType>'
                f'<xs:simpleType name="A"><xs:restriction base="L">{facet_xml(f1)}</xs:restriction></xs:simpleType>'
-               f'<xs:element name="e" type="A"/></xs:schema>')
+               f'<xs:simpleType name="B"><xs:restriction base="A">{facet_xml(f2)}</xs:restriction></xs:simpleType>'
+               f'<xs:element name="e" type="B"/></xs:schema>')
+
+        def item_ok(x, version):
+            if item == 'QName':
+                prefix, _, local = x.rpartition(':')
+                return DT.lexical_ok('NCName', local, version) and (prefix in ('', 'p'))
+            return DT.lexical_ok(item, x, version)
 
         def chk(t, version):
             items = DT.normalize('token', t).split(' ') if DT.normalize('token', t) else []
-            if not all(DT.lexical_ok('int', x, version) for x in items):
+            if not all(item_ok(x, version) for x in items):
                 return False
-            return string_facets_ok(f1, '', length=len(items))
-        texts = ['', '1', '1 2', '1  2\t3', '1 2 3 4', '1 2 3 4 5', '1 x', '1 2.0', ' 7 ', '1_0 2', '+1 -2']
+            return string_facets_ok(f1, '', length=len(items)) and string_facets_ok(f2, '', length=len(items))
+        texts = {'int': ['', '1', '1 2', '1  2\t3', '1 2 3 4', '1 2 3 4 5', '1 x', '1 2.0', ' 7 ', '1_0 2', '+1 -2'],
+                 'QName': ['', 'a', 'a p:b', 'a  p:b\tc', 'a b c d', 'p:a p:b p:c p:d p:e', 'a q:b', 'a 1b', ' p:a ', 'a:b:c', 'a b'],
+                 'NMTOKEN': ['', 'a', 'a 1', '1  2\t3', 'a b c d', 'a b c d e', 'a b,c', 'a (b)', ' -x '],
+                 'boolean': ['', 'true', '1 0', 'true  false\t1', '1 0 1 0', '1 0 1 0 1', 'true yes', 'TRUE', ' 0 ']}[item]
         return xsd, chk, texts
     if kind == 'union':
         xsd = (f'<xs:schema xmlns:xs="{XS}"><xs:simpleType name="S"><xs:restriction base="xs:int">{facet_xml(f1)}</xs:restriction></xs:simpleType>'
